@@ -1,36 +1,113 @@
-//! The exploration families (sub-alphabets x parameter sets x depth) per tier.
+//! The exploration families (sub-alphabet x parameter sets x depth) per tier. Every family is
+//! enumerated exhaustively; the families overlap on purpose (the full alphabet at a lower depth,
+//! focused sub-alphabets deeper).
 use vcore::Tier;
 
-use crate::plan::{CAP, EXIT_MODES, Family, Letter::*};
+use crate::plan::{CAP, EXIT_MODES, ExitMode, Family, Letter::*};
 
 pub fn families(tier: Tier) -> Vec<Family> {
     let sizes = vec![1, CAP - 1, CAP, CAP + 1, 2 * CAP];
-    let mut v = Vec::new();
-    // A: everything at once, exit mode rotating
-    v.push(Family {
-        name: "full",
-        letters: vec![CO, CE, CI, CX, RO, RE, WI, CL, WT, H],
-        depth: tier.pick(5, 7),
+    let q = tier == Tier::Quick;
+    let base = Family {
+        name: "",
+        letters: vec![],
+        depth: 0,
         sizes: sizes.clone(),
         chunks: vec![1, 4096, CAP],
         wlens: vec![1, 4096, CAP, CAP + 1, 2 * CAP],
         rlens: vec![1, CAP, 4 * CAP],
         modes: vec![],
-        max_child_writes: tier.pick(1, 2),
+        max_child_writes: 1,
         managed: false,
+        max_polls: 3,
+        max_child_reads: 2,
+        output: false,
+    };
+    let mut v = Vec::new();
+    // the whole alphabet, exit mode rotating
+    v.push(Family {
+        name: "full",
+        letters: vec![CO, CE, CI, CX, RO, RE, WI, CL, WT, H],
+        depth: tier.pick(4, 5),
+        sizes: if q { vec![CAP + 1] } else { vec![1, CAP + 1] },
+        chunks: vec![4096],
+        wlens: if q { vec![2 * CAP] } else { vec![4096, 2 * CAP] },
+        rlens: vec![4 * CAP],
+        max_polls: 2,
+        ..base.clone()
     });
-    // B: wait vs. exit vs. draining, all exit modes
+    // stdout data path: payload size x read chunk x order of write / read / harvest / exit
+    v.push(Family {
+        name: "out",
+        letters: vec![CO, RO, H, CX],
+        depth: tier.pick(4, 6),
+        max_child_writes: tier.pick(1, 2),
+        ..base.clone()
+    });
+    // stderr next to stdout
+    v.push(Family {
+        name: "outerr",
+        letters: vec![CO, CE, RO, RE, H],
+        depth: tier.pick(4, 6),
+        sizes: if q { vec![CAP + 1] } else { vec![1, CAP + 1] },
+        chunks: vec![CAP],
+        max_polls: 2,
+        ..base.clone()
+    });
+    // stdin path: write length x how much the child reads x order
+    v.push(Family {
+        name: "in",
+        letters: vec![WI, CI, H, CL],
+        depth: tier.pick(4, 6),
+        wlens: if q { vec![1, 4096, CAP + 1, 2 * CAP] } else { base.wlens.clone() },
+        rlens: if q { vec![1, 4 * CAP] } else { vec![1, CAP, 4 * CAP] },
+        ..base.clone()
+    });
+    // both directions at once, above the pipe capacity
+    v.push(Family {
+        name: "duplex",
+        letters: vec![CO, WI, RO, CI, H],
+        depth: tier.pick(5, 7),
+        sizes: if q { vec![2 * CAP] } else { vec![CAP + 1, 2 * CAP] },
+        chunks: vec![CAP],
+        wlens: if q { vec![2 * CAP] } else { vec![CAP, 2 * CAP] },
+        rlens: vec![4 * CAP],
+        max_polls: 2,
+        max_child_reads: 1,
+        ..base.clone()
+    });
+    // wait vs. exit vs. buffered output, every exit mode
     v.push(Family {
         name: "status",
         letters: vec![CO, CX, RO, WT, H],
-        depth: tier.pick(5, 7),
-        sizes: vec![1, CAP + 1],
+        depth: tier.pick(4, 6),
+        sizes: if q { vec![CAP + 1] } else { vec![1, CAP + 1] },
         chunks: vec![CAP],
-        wlens: vec![1],
-        rlens: vec![1],
         modes: EXIT_MODES.to_vec(),
-        max_child_writes: 1,
-        managed: false,
+        max_polls: tier.pick(2, 3),
+        ..base.clone()
+    });
+    // Child::wait_with_output(): status and both outputs collected concurrently
+    v.push(Family {
+        name: "output",
+        letters: vec![CO, CE, CX, WO, H],
+        depth: tier.pick(4, 6),
+        sizes: if q { vec![2 * CAP] } else { sizes.clone() },
+        modes: if q { vec![ExitMode::Code(1), ExitMode::Signal(libc::SIGKILL)] } else { EXIT_MODES.to_vec() },
+        max_polls: tier.pick(2, 3),
+        output: true,
+        ..base.clone()
+    });
+    // buffer-pool reads (AsyncReadManaged)
+    v.push(Family {
+        name: "managed",
+        letters: vec![CO, RO, H, CX],
+        depth: tier.pick(3, 5),
+        sizes: vec![1, CAP + 1],
+        chunks: vec![4096],
+        managed: true,
+        modes: vec![ExitMode::Code(0)],
+        ..base.clone()
     });
     v
 }
